@@ -25,7 +25,7 @@ CLAIMED = {
            "additionalProperties, allOf, $ref, minProperties / maxProperties) under a reading m of the documented relaxation: `ref` applies it nowhere, `relaxed` everywhere, `any` / `all` take at every site "
            "whichever reading accepts / rejects - the generated code applies the relaxation per site (it depends on whether a member is a pointer), so every admissible validator lies between `all` and `any`. "
            "readings_agree_without_zero proves for EVERY schema, definitions, fuel, instance and pair of readings that they coincide unless some object member is an explicit zero value "
-           "(skip_agrees_without_zero, any_all_agree_without_zero): outside those instances the generated Validate has exactly one admissible verdict; the gap is shown real in both directions; "
+           "(skip_agrees_without_zero, any_all_agree_without_zero), and validG_mono / sandwich that the readings are ordered (validAll -> valid -> validAny, validAll -> validSkip -> validAny): outside those instances the generated Validate has exactly one admissible verdict; the gap is shown real in both directions; "
            "required_null_is_missing fixes the null reading; property_counts. Tie: definition sets (random shapes + four fixed shapes) are generated, their models compiled, and valid-by-construction "
            "instances plus single-point mutations (incl. zero items) are decoded and validated; the verdict must equal validAll wherever validAll = validAny; `valid` itself is compared with "
            "go-openapi/validate on every null-free instance. Not proved: a model of the generated Validate code (pointer / omitempty plan) refining these semantics."),
